@@ -145,6 +145,27 @@ def triple_shapes(atoms):
                 yield (o1, a, (o2, b, c))
 
 
+def repeat_shapes(atoms):
+    """Two atoms, one of them used twice (the same object when lowered with sharing):
+    a rewrite that merges a and b must not disturb the other occurrence."""
+    ops = ("and", "or", "xor")
+    for a, b in itertools.product(atoms, repeat=2):
+        if a == b:
+            continue
+        for o1 in ops:
+            for o2 in ops:
+                yield (o1, (o2, a, b), a)
+                yield (o1, (o2, a, b), b)
+                yield (o1, a, (o2, a, b))
+                yield (o1, b, (o2, a, b))
+
+
+def mergeable_atoms():
+    out = [("eq", "2"), ("eq", "4"), ("ne", "2"), ("ge", "2"), ("le", "4"), ("gt", "2"), ("lt", "6")]
+    out += [("in", "2", "4"), ("in", "4", "6"), ("in", "2", "4", "6"), ("notin", "4"), ("notin", "2", "4"), ("notin", "4", "6", "8")]
+    return out
+
+
 SCALAR_VALUES = [0, 0.5, 1, 1.5, 2, 2.5, 3, 3.5, 4, True, False, None, "a", ""]
 
 # ---------------------------------------------------------------- quantified / set atoms (C03)
